@@ -34,12 +34,7 @@ def base_name(name):
     return name
 
 
-class Result:
-    """uniform record for every decided item (SMT obligation, finite check, bounded check)"""
-
-    def __init__(self, name, kind, status, function="", line=0, solver="", ms=0, detail=None, model="", proved_level="P"):
-        self.name, self.kind, self.status, self.function, self.line = name, kind, status, function, line
-        self.solver, self.ms, self.detail, self.model, self.level = solver, ms, detail or {}, model, proved_level
+from pyvc.result import Result
 
 
 def run_check(pid, tier, seed):
@@ -83,6 +78,9 @@ def run_check(pid, tier, seed):
     return cm, results, bounded, stats, notes, functions, time.time() - t0
 
 
+_replay_memo = {}
+
+
 def replay_violation(cm, pid, r):
     """try to turn a refuted obligation into a failing input on the real code (runs under /venv/bin/python)"""
     script = os.path.join(ROOT, "replay", pid.lower() + ".py")
@@ -91,7 +89,11 @@ def replay_violation(cm, pid, r):
     path = os.path.join(ROOT, "replays", pid, safe + ".json")
     rec = {"property": pid, "obligation": r.name, "kind": r.kind, "function": r.function, "line": r.line,
            "solver": r.solver, "solver_detail": r.detail, "model": r.model[:20000], "replayed": False}
-    if os.path.exists(script):
+    fam = (pid, r.function if not getattr(cm, "REPLAY_PER_OBLIGATION", False) else r.name)
+    if fam in _replay_memo:
+        rec["replay"] = _replay_memo[fam]
+        rec["replayed"] = bool(rec["replay"].get("found"))
+    elif os.path.exists(script):
         try:
             p = subprocess.run([VENV_PY, script, "--obligation", r.name], capture_output=True, text=True, timeout=600,
                                input=json.dumps({"model": solve.parse_model(r.model), "obligation": r.name}), cwd=ROOT)
@@ -100,6 +102,7 @@ def replay_violation(cm, pid, r):
                 rr = json.loads(out)
             except Exception:
                 rr = {"found": False, "error": (p.stdout + p.stderr)[-2000:]}
+            _replay_memo[fam] = rr
             rec["replay"] = rr
             rec["replayed"] = bool(rr.get("found"))
         except subprocess.TimeoutExpired:
